@@ -86,8 +86,18 @@ C[M + "__invert__"] = dict(
     ensures="NEGATED(result) == (not NEGATED(self)) and SAME_TEXT(CLASSARG(result), '[' + ('' if NEGATED(self) else '^') + "
             "VERBOSE(self)[(2 if NEGATED(self) else 1):-1] + ']')",
     returns="class_wrapped", flips=True, frame=[])
-# ~AnyWordChar(g) is AnyButWordChar(g) and back (assumed here; decided over ALL code points by the finite part of C06)
-C[K + "AnyWordChar.__invert__"] = dict(params={"self": "classobj"}, raises={}, returns="class_wrapped", flips=True, assumed=True)
-C[K + "AnyButWordChar.__invert__"] = dict(params={"self": "classobj"}, raises={}, returns="class_wrapped", flips=True, assumed=True)
+# the word-character classes: their constructors hand the documented bracket text to __Class.__init__, remember is_global, and
+# ~ maps each onto the other with the same is_global (that the two texts are complements: finite part of C06, all code points)
+for cls, other, txt, neg in (("AnyWordChar", "AnyButWordChar", "[a-zA-Z0-9_]", False), ("AnyButWordChar", "AnyWordChar", "[^a-zA-Z0-9_]", True)):
+    otxt = "[^a-zA-Z0-9_]" if not neg else "[a-zA-Z0-9_]"
+    C[K + cls + ".__init__"] = dict(
+        params={"self": "newobj", "is_global": "bool"}, raises={},
+        ensures=f"SAME_TEXT(CLASSARG(self), '{txt}') and NEGATED(self) == {neg} and ISGLOBALWORD(self) == is_global",
+        returns="class_ctor", value=f"'{txt}'", neg=neg, fields={f"_{cls}__is_global": "is_global"}, frame=FRC + [f"self._{cls}__is_global"])
+    C[K + cls + ".__invert__"] = dict(
+        params={"self": ["classobj:" + ("Word" if not neg else "ButWord")]}, raises={},
+        ensures=f"ISCLS(result) and NEGATED(result) == {not neg} and ISGLOBALWORD(result) == ISGLOBALWORD(self) and "
+                f"SAME_TEXT(CLASSARG(result), '{otxt}')",
+        returns="word_invert", other=other, frame=[])
 C[K + "Any.__invert__"] = dict(params={"self": "classobj"}, raises={"CannotBeNegatedException": "True"}, returns="opaque_class",
                                cover_optional={"normal": True}, frame=[])
